@@ -16,7 +16,7 @@ EXPLANATION = (
     "(every ASCII character, every pair of meta-characters, path-like, pattern-like and non-ASCII texts) the parser reads "
     "escape(s) as literals and separators spelling s.  That the escaped text passes the rule checker and is invariant "
     "follows from C06/C11 and is not decided here.")
-RULES = "C18.sets (TABLE), C18.escape (EFFECT), C18.roundtrip (TABLE: parser evaluated on escaped strings)"
+RULES = "C18.sets (TABLE), C18.escape (EFFECT), C18.roundtrip (TABLE: parser evaluated on escaped strings), C01.delegate (SIBLING: is_match / matched consult the compiled program only)"
 
 
 def literal_of(th, eid):
@@ -71,6 +71,11 @@ def run(ctx):
     rule_sets(F, R, M)
     rule_escape(F, R, M)
     rule_roundtrip(F, R, M)
+    # "matches that string and no other path": matching is the compiled program's, for invariant globs too - both
+    # Program impls consult exactly their own program (C01.delegate); a shortcut that compares paths instead of text
+    # (trailing separators, `.` components) would accept other paths
+    from . import c01
+    c01.rule_delegate(F, R)
 
 
 def rule_meta(F, R):
